@@ -210,6 +210,8 @@ type Conn struct {
 	encryptedPackets []addrPkt
 
 	connectionClosedByUser bool
+	closeNotifyLock        sync.Mutex
+	closeNotifySent        bool
 	closeLock              sync.Mutex
 	closed                 *closer.Closer
 
@@ -2312,6 +2314,26 @@ func (c *Conn) recvHandshake() <-chan dtlshandshake.RecvHandshakeState {
 }
 
 func (c *Conn) notify(ctx context.Context, level alert.Level, desc alert.Description) error {
+	if desc != alert.CloseNotify {
+		return c.sendAlert(ctx, level, desc)
+	}
+
+	// close_notify goes out once: an application Close racing the reply to
+	// the peer's close_notify would otherwise send it twice.
+	c.closeNotifyLock.Lock()
+	defer c.closeNotifyLock.Unlock()
+	if c.closeNotifySent {
+		return nil
+	}
+	err := c.sendAlert(ctx, level, desc)
+	if err == nil {
+		c.closeNotifySent = true
+	}
+
+	return err
+}
+
+func (c *Conn) sendAlert(ctx context.Context, level alert.Level, desc alert.Description) error {
 	common := dtlsstate.CommonState(c.state)
 	if level == alert.Fatal && len(common.SessionID) > 0 { //nolint:nestif
 		if common.LocalVersion == protocol.Version1_2 {
